@@ -253,6 +253,34 @@ def check_case(case):
                                     out.append(("group-not-in-force/with-list-members", f"{name} (with a {mts[pick].__name__} member): {d}"))
                             if out:
                                 break
+            # a member passed explicitly as None is an absent member: one real member plus Nones is a valid instance, and
+            # Nones alone do not satisfy a required group
+            for a in (usable[:2] if name not in M.custom_constrained_classes() else []):  # hand-written rules have their own notion of "given"
+                try:
+                    desc = M.minimal(cls, with_attr=a)
+                    _custom_patch(desc, a)
+                    kw = {k: (M.untag(v) if M.is_scalar(v) else M.build(v)) for k, v in desc["kw"].items()}
+                    members = [M.untag(m) if M.is_scalar(m) else M.build(m) for m in desc["list"]]
+                    cls(*members, **kw)
+                except Exception:
+                    continue  # the plain instance cannot be built this way (custom rules): nothing to compare with
+                for other in usable:
+                    if other != a and other not in kw:
+                        kw[other] = None
+                try:
+                    cls(*members, **kw)
+                except Exception as e:
+                    out.append(("group-counts-explicit-None-as-present", f"{name}({a}=..., {', '.join(o + '=None' for o in usable if o != a)}): {e!r}"))
+            if case["required"]:
+                try:
+                    base = M.minimal(cls)
+                    kw = {k: (M.untag(v) if M.is_scalar(v) else M.build(v)) for k, v in base["kw"].items() if k not in g}
+                    kw.update({m: None for m in usable})
+                    members = [M.untag(m) if M.is_scalar(m) else M.build(m) for m in base["list"]]
+                    cls(*members, **kw)
+                    out.append(("required-group-satisfied-by-None", f"{name}({', '.join(m + '=None' for m in usable)}) was built"))
+                except Exception:
+                    pass
             if case["required"]:
                 o = {"kind": "none-of-exactly-one", "group": g, "cls": name}
                 for k, d in c04.check_case({"ob": o, "route": "constructor"}):
